@@ -127,6 +127,17 @@ Theorem C01_bias_force_correct_walls : forall k lk uk hl hu l ws x0, terms_ok fs
 Proof. exact bias_force_correct_walls. Qed.
 Print Assumptions C01_bias_force_correct_walls.
 
+(* metadynamics without grids at a fixed set of hills (sum of Gaussians truncated beyond exponent 23): no hill exactly at
+   its truncation radius *)
+Theorem C01_bias_force_correct_meta : forall hs ws x0, (forall h, In h hs -> hill_ok ws x0 h) -> bias_force_correct (BMeta hs) ws x0.
+Proof. exact bias_force_correct_meta. Qed.
+Print Assumptions C01_bias_force_correct_meta.
+(* ABMD at a fixed reference: the variable is not exactly at the reference *)
+Theorem C01_bias_force_correct_abmd : forall k dec v ref ws x0, (v < length ws)%nat -> abmd_diff Rops dec (xat Rops x0 v) ref <> 0 ->
+  bias_force_correct (BAbmd k dec v ref) ws x0.
+Proof. exact bias_force_correct_abmd. Qed.
+Print Assumptions C01_bias_force_correct_abmd.
+
 (* ---- closed statement: guards only --------------------------------------------------------------------------- *)
 Theorem C01_forces_are_minus_gradient : forall (cf : config) (s : SYS),
   (forall v c, In v (cf_vars cf) -> In c (cv_cvcs v) -> cvc_guard (cf_cell cf) c s) ->
@@ -156,3 +167,5 @@ Proof. exact ex_guards. Qed.
 (* the periodic-cell case of image_ok is inhabited *)
 Example C01_example_cell : image_ok true (Some (8, 8, 8)) (0, 0, 0) (5, 1, 1) /\ ~ plain true (Some (8, 8, 8)).
 Proof. exact ex_image_cell. Qed.
+Example C01_example_hill : hill_ok [mkCvar 1 false 0 []] [3] (2, [(0%nat, (1, 2))]) /\ abmd_diff Rops false 3 5 <> 0.
+Proof. exact ex_hill. Qed.
